@@ -254,6 +254,27 @@ class WrapperModel(Model):
         if f[0] == 'lib' and f[1].startswith(self.module.rel + '.') and ln in self.module.functions and ln not in ('update_wrapper',):
             fi = self.module.functions[ln]
             return self.engine.inline(fi.node, ln, {}, args, kws, st, node)
+        # --- a self-contained helper imported from a sibling module of the package (safe.py using _cache._evict): it refers to nothing but its parameters
+        if f[0] == 'lib' and getattr(self.module, 'repo', None) is not None and ln not in ('_keygen', 'update_wrapper', 'wraps', 'partial', 'keygen') and \
+                any(contains_term(a, lambda t: t == CACHE or is_bk(t) or t == ARCHIVE) for a in list(args) + [k[-1] for k in kws]):
+            parts = f[1].lstrip('.').split('.')
+            mine = self.module.rel.split('/')[-1][:-3]
+            if len(parts) >= 2 and parts[-2] in self.module.repo.modules and parts[-2] != mine:
+                ofi = self.module.repo.modules[parts[-2]].functions.get(parts[-1])
+                if ofi is not None:
+                    import builtins as _b
+                    bound = set(x.arg for x in ofi.node.args.args + ofi.node.args.kwonlyargs)
+                    if ofi.node.args.vararg:
+                        bound.add(ofi.node.args.vararg.arg)
+                    if ofi.node.args.kwarg:
+                        bound.add(ofi.node.args.kwarg.arg)
+                    for n_ in ast.walk(ofi.node):
+                        if isinstance(n_, ast.Name) and isinstance(n_.ctx, ast.Store):
+                            bound.add(n_.id)
+                    free = [n_.id for n_ in ast.walk(ofi.node) if isinstance(n_, ast.Name) and isinstance(n_.ctx, ast.Load)
+                            and n_.id not in bound and not hasattr(_b, n_.id)]
+                    if not free:
+                        return self.engine.inline(ofi.node, parts[-1], {}, args, kws, st, node)
         # --- the user function handed to a function of the package other than _keygen (it might be evaluated there)
         if f[0] == 'lib' and ln not in ('_keygen', 'update_wrapper', 'wraps', 'partial') and any(a == FN for a in args) \
                 and (f[1].startswith('.') or f[1].startswith('klepto') or f[1].startswith(self.module.rel)):
